@@ -55,6 +55,46 @@ theorem C04_history (cs : List Call) : ∀ (h : Heap) (i : Nat), i < h.objs.leng
     simp only [runCalls] at this
     rw [this, C04_frame_get h c i hi]
 
+/-- **history, object level**: not only what an existing object reports but the object itself — including the
+    `last_op` its next operation starts from and its open block — is what it was. -/
+theorem C04_history_obj (cs : List Call) : ∀ (h : Heap) (i : Nat), i < h.objs.length →
+    (runCalls h cs).objs[i]? = h.objs[i]? := by
+  induction cs with
+  | nil => intro h i _; rfl
+  | cons c cs ih =>
+    intro h i hi
+    simp only [runCalls, List.foldl_cons]
+    have hlen : h.objs.length ≤ (exec h c).objs.length := by
+      have := congrArg List.length (C04_frame h c).1
+      simp only [List.length_take] at this
+      omega
+    have := ih (exec h c) i (by omega)
+    simp only [runCalls] at this
+    rw [this, C04_frame_get h c i hi]
+
+/-- the object a transformation creates is a function of the receiver object and the arguments alone -/
+theorem exec_transform_last (h : Heap) (r : Nat) (s : Step) (namer : Namer) (names : List (Name × String)) (hs : List Nat)
+    (o : Obj) (ho : h.objs[r]? = some o) :
+    (exec h (.transform r s namer names hs)).objs.getLast? = some { df := o.df.apply s, display := updDisplay o.display names } := by
+  simp [exec, ho]
+
+/-- **purity over time**: the same call on the same receiver builds the same DataFrame again, whatever other calls
+    (on any receivers, in any interleaving) happened in between -/
+theorem C04_pure (h : Heap) (cs : List Call) (r : Nat) (s : Step) (namer : Namer) (names : List (Name × String)) (hs : List Nat)
+    (hr : r < h.objs.length) :
+    (exec (runCalls (exec h (.transform r s namer names hs)) cs) (.transform r s namer names hs)).objs.getLast?
+      = (exec h (.transform r s namer names hs)).objs.getLast? := by
+  obtain ⟨o, ho⟩ : ∃ o, h.objs[r]? = some o := ⟨h.objs[r], by simp [hr]⟩
+  have h1 : (exec h (.transform r s namer names hs)).objs[r]? = some o := by
+    rw [C04_frame_get h _ r hr]; exact ho
+  have hlen : r < (exec h (.transform r s namer names hs)).objs.length := by
+    have := congrArg List.length (C04_frame h (.transform r s namer names hs)).1
+    simp only [List.length_take] at this
+    omega
+  have h2 : (runCalls (exec h (.transform r s namer names hs)) cs).objs[r]? = some o := by
+    rw [C04_history_obj cs _ r hlen]; exact h1
+  rw [exec_transform_last _ r s namer names hs o h2, exec_transform_last h r s namer names hs o ho]
+
 /-- handles are never rewritten: a Column handle means the same before and after being passed to a method -/
 theorem C04_handles (cs : List Call) : ∀ (h : Heap) (i : Nat), i < h.handles.length →
     (runCalls h cs).handles[i]? = h.handles[i]? := by
